@@ -10,9 +10,13 @@ package siml
 import (
 	"bytes"
 	"fmt"
+	"math/big"
 	"path/filepath"
+	"reflect"
 	"sort"
 	"strings"
+
+	"github.com/google/uuid"
 
 	"github.com/nspcc-dev/neo-go/pkg/core/transaction"
 	"github.com/nspcc-dev/neo-go/pkg/util"
@@ -62,6 +66,7 @@ func upgradeDumpBody(r *Run) {
 	notaryFlag := Weighted(t, "notaryFlag", []int{50, 20, 15, 15}) // 0 as dumped, 1 absent, 2 false, 3 true
 	ballots := Weighted(t, "ballots", []int{50, 15, 15, 20})       // 0 as dumped, 1 absent, 2 empty list, 3 stale (height far in the past is impossible on a short chain: see below)
 	extraAcc := rapid.IntRange(0, 3).Draw(t, "extraAccounts")
+	longHistory := Chance(t, "longSnapshotHistory?", 35) // netmap: history extended beyond the default before the upgrade
 	twice := Chance(t, "twice?", 30)
 	d := LoadDump(filepath.Join(RepoDir(), ds.prefix))
 	mutate := func(name string, kvs []KV) []KV {
@@ -88,6 +93,28 @@ func upgradeDumpBody(r *Run) {
 			raw, _ := stackitem.Serialize(stackitem.NewArray(nil))
 			out = append(out, KV{K: []byte("ballots"), V: raw})
 		}
+		if name == "netmap" && longHistory {
+			// history extended to 12 snapshots (updateSnapshotCount exists since
+			// 0.15.1): slots 10 and 11 hold copies of slots 0 and 1 in the layout
+			// of the dumped version
+			var s0, s1 []byte
+			for _, kv := range out {
+				if string(kv.K) == "snapshot_\x00" {
+					s0 = kv.V
+				}
+				if string(kv.K) == "snapshot_\x01" {
+					s1 = kv.V
+				}
+			}
+			if s0 != nil && s1 != nil {
+				for i := range out {
+					if string(out[i].K) == "snapshotCount" {
+						out[i].V = []byte{12}
+					}
+				}
+				out = append(out, KV{K: []byte("snapshot_\x0a"), V: s0}, KV{K: []byte("snapshot_\x0b"), V: s1})
+			}
+		}
 		if name == "balance" {
 			for i := 0; i < extraAcc; i++ {
 				acc := DetKey(fmt.Sprintf("dump/acc/%d", i)).GetScriptHash().BytesBE()
@@ -104,7 +131,7 @@ func upgradeDumpBody(r *Run) {
 	w := r.Own(NewDumpWorld(n, "dump", d, mutate))
 	dc := w.C[target]
 	repo := dumpRepoName(target)
-	r.Tracef("dump=%s target=%s n=%d sig=%d gasCut=%d notaryFlag=%d ballots=%d extraAcc=%d", filepath.Base(ds.prefix), target, n, sig, gasCut, notaryFlag, ballots, extraAcc)
+	r.Tracef("dump=%s target=%s n=%d sig=%d gasCut=%d notaryFlag=%d ballots=%d extraAcc=%d longHistory=%v", filepath.Base(ds.prefix), target, n, sig, gasCut, notaryFlag, ballots, extraAcc, longHistory)
 	if target != "nns" {
 		// a fresh NNS (ID 1), as tests/migration does
 		w.Deploy("nns", CompileContract("nns"), []any{[]any{[]any{"neofs", "ops@nspcc.io"}}})
@@ -216,6 +243,11 @@ func upgradeDumpBody(r *Run) {
 			r.Violation("C16/read-api-changed-by-upgrade", "", "%s from %s (old version %d): %s", target, filepath.Base(ds.prefix), oldVersion, diff)
 		}
 		r.CountN("dump_read_api_lines_compared", int64(len(pre)))
+		// what the new executable returns must be well-formed for the new
+		// version: the generated bindings must be able to decode it
+		if msg := postUpgradeDecode(w, repo, dc); msg != "" {
+			r.Violation("C16/post-upgrade-result-malformed", "", "%s from %s (old version %d): %s", target, filepath.Base(ds.prefix), oldVersion, msg)
+		}
 	}
 	r.Checkpoint()
 }
@@ -413,6 +445,65 @@ func dumpSweepDiff(pre, post map[string]string) string {
 		}
 		if post[k] != pre[k] {
 			return fmt.Sprintf("%s: old executable said %s, new one says %s", k, clipStr(pre[k], 200), clipStr(post[k], 200))
+		}
+	}
+	return ""
+}
+
+// postUpgradeDecode calls list-returning getters of an upgraded contract
+// through the generated binding; a HALTing call whose result the binding cannot
+// decode means the stored data is not in the new version's shape.
+func postUpgradeDecode(w *World, repo string, d *Deployed) string {
+	ctor := bindCtors[repo]
+	if ctor == nil {
+		return ""
+	}
+	a := &bindActor{w: w, iters: map[uuid.UUID][]stackitem.Item{}}
+	obj := reflect.ValueOf(ctor(a, d.Hash))
+	try := func(method string, args ...any) string {
+		m := obj.MethodByName(method)
+		if !m.IsValid() {
+			return ""
+		}
+		in := make([]reflect.Value, len(args))
+		for i, x := range args {
+			in[i] = reflect.ValueOf(x)
+		}
+		a.calls = a.calls[:0]
+		outs := m.Call(in)
+		var err error
+		if e, ok := outs[len(outs)-1].Interface().(error); ok {
+			err = e
+		}
+		if err != nil && len(a.calls) == 1 && a.calls[0].halted && !a.calls[0].null {
+			return fmt.Sprintf("rpc/%s.%s%v cannot decode what the upgraded contract returns: %v", repo, method, args, err)
+		}
+		return ""
+	}
+	switch repo {
+	case "netmap":
+		if msg := try("Netmap"); msg != "" {
+			return msg
+		}
+		if msg := try("NetmapCandidates"); msg != "" {
+			return msg
+		}
+		cnt := 10
+		if v := w.BC.GetStorageItem(d.ID, []byte("snapshotCount")); len(v) == 1 {
+			cnt = int(v[0])
+		}
+		for i := 0; i < cnt; i++ {
+			if msg := try("Snapshot", big.NewInt(int64(i))); msg != "" {
+				return msg
+			}
+		}
+	case "container":
+		if msg := try("List", []byte{}); msg != "" {
+			return msg
+		}
+	case "balance":
+		if msg := try("TotalSupply"); msg != "" {
+			return msg
 		}
 	}
 	return ""
